@@ -115,4 +115,15 @@ func init() {
 		Real: []string{"SparseFile", "SparseFileHandle", "sparseFileLoader", "sparseIndexFile (FUSE node)", "state save/load/preload"},
 		Stub: []string{"chunk store (fault injecting)", "kernel/go-fuse bridge", "scheduler", "crash instant"},
 	})
+	reg(&Prop{ID: "C17", Level: "fault_enumeration",
+		Quick:    Tier{Cases: 1600, PerJob: 100, Seconds: 60},
+		Thorough: Tier{Cases: 120000, PerJob: 1500, Seconds: 1500},
+		Rule: "one case = blob (generic, optionally with runs of different constant bytes so that equal-size chunks with different IDs exist; up to 400 chunks so that batch sizes > 1 occur) x worker count n in 1..64 (incl. n chosen so that chunks/(10n) >= 1); the intact file must verify; then every fault of the enumeration must be rejected: a single changed byte at EVERY position for blobs <= 1500 bytes, else at 24 positions biased to the first, last and batch-boundary chunks, truncation and extension by 1 and by tape-chosen amounts (also extension by a copy of the tail), and a swap of two equal-size chunks; every verification runs VerifyIndex with its n workers under the seeded scheduler (sub_evaluations = verifications); distinct = distinct (sizes, n, batch, trace hashes); non-trivial = a fault was applied",
+		Assumptions: []string{
+			"single-byte change = one bit flipped in that byte; other byte values are covered by the hash's properties, not enumerated",
+			"exhaustive over byte positions only for blobs <= 1500 bytes (stated per case in the notes)",
+		},
+		Real: []string{"VerifyIndex", "fileSeedSegment.Validate", "Digest"},
+		Stub: []string{"scheduler", "fault injector on the stored blob"},
+	})
 }
